@@ -357,6 +357,8 @@ type genCfg struct {
 	maxDepth int
 	maxElems int
 	maxStr   int
+	// contKeys: maps may be keyed by lists, sets and maps (legal Thrift; Go sees such keys as pointers)
+	contKeys bool
 }
 
 var scalarKinds = []byte{tBOOL, tI8, tI16, tI32, tI64, tDBL, tSTR}
@@ -470,6 +472,9 @@ func randVal(r *rand.Rand, t byte, depth int, c *genCfg) *Val {
 		return v
 	case tMAP:
 		v := &Val{T: t, KT: pick(keyKinds), ET: pick(allKinds)}
+		if c.contKeys && r.Intn(3) == 0 {
+			v.KT = []byte{tLIST, tSET, tMAP, tLIST}[r.Intn(4)]
+		}
 		kproto := randVal(r, v.KT, depth+1, c)
 		vproto := randVal(r, v.ET, depth+1, c)
 		seen := map[string]bool{}
